@@ -817,3 +817,32 @@ Proof.
 Qed.
 
 End Restored.
+
+(* ---------- a concrete tree (used by the Examples of Props/C05.v) ---------- *)
+
+Definition witness_tree : tree :=
+  TDir (mkAttrs 16877 0 0 1000 [([117; 46; 98], [1]); ([117; 46; 97], [2; 0; 3])])
+    [ ([97], TFile (mkAttrs 35309 1000 4000000000 5 []) [1; 2; 3]);
+      ([98], TLink (mkAttrs 41471 7 8 9 []) [47; 120]);
+      ([99], TDir (mkAttrs 17407 1 2 7 []) []);
+      ([100], TFile (mkAttrs 33188 0 0 0 []) []);
+      ([101], TDev (mkAttrs 8612 0 0 3 []) 1283) ].
+
+
+Lemma witness_wf : wf_tree witness_tree /\ unique_tree witness_tree /\ root_ok witness_tree.
+Proof.
+  assert (Hx : forall kv : bytes * bytes, ~ In 0 (fst kv) -> lenN (fst kv) < 2 ^ 61 -> lenN (snd kv) < 2 ^ 61 -> wf_xattr kv)
+    by (intros kv H1 H2 H3; repeat split; assumption).
+  assert (Ha : forall m u g t xs, m < 2 ^ 16 -> valid_type (N.land m S_IFMT) = true -> u < two64 -> g < two64 ->
+                 t < two64 -> Forall wf_xattr xs -> wf_attrs (mkAttrs m u g t xs))
+    by (intros; constructor; assumption).
+  split; [|split; [|exact I]].
+  - cbn [wf_tree witness_tree]. unfold type_is, good_name, small. cbn [t_mode].
+    repeat split; try (apply Ha); try reflexivity; try constructor; try (apply Hx); try reflexivity;
+      try constructor; try (apply Hx); try reflexivity; try constructor; try (left; reflexivity);
+      cbn; intuition discriminate.
+  - cbn [unique_tree witness_tree map fst]. repeat split; try reflexivity.
+    repeat constructor; cbn; try (intuition discriminate).
+    all: try constructor.
+Qed.
+
